@@ -1186,7 +1186,7 @@ impl Operator for RdfInsertPatternOperator {
         let mut triples_to_insert = Vec::new();
 
         while let Some(chunk) = self.input.next()? {
-            for row in 0..chunk.row_count() {
+            for row in chunk.selected_indices() {
                 let subject = self.resolve_component(&self.subject, &chunk, row);
                 let predicate = self.resolve_component(&self.predicate, &chunk, row);
                 let object = self.resolve_component(&self.object, &chunk, row);
@@ -1383,7 +1383,7 @@ impl Operator for RdfDeletePatternOperator {
         let mut triples_to_delete = Vec::new();
 
         while let Some(chunk) = self.input.next()? {
-            for row in 0..chunk.row_count() {
+            for row in chunk.selected_indices() {
                 let subject = self.resolve_component(&self.subject, &chunk, row);
                 let predicate = self.resolve_component(&self.predicate, &chunk, row);
                 let object = self.resolve_component(&self.object, &chunk, row);
@@ -1621,7 +1621,7 @@ impl Operator for RdfModifyOperator {
         // Step 1: Collect all bindings from WHERE clause (before any modifications)
         let mut bindings: Vec<(DataChunk, usize)> = Vec::new();
         while let Some(chunk) = self.input.next()? {
-            for row in 0..chunk.row_count() {
+            for row in chunk.selected_indices() {
                 bindings.push((chunk.clone(), row));
             }
         }
